@@ -462,6 +462,14 @@ func (in *Interp) block(fr *frame, b *ssa.BasicBlock) (next *ssa.BasicBlock, ret
 				return nil, nil, false, e
 			}
 			fr.env[i] = v
+		case *ssa.Defer:
+			// a deferred call without effects on the modelled state (an empty function
+			// literal, a formatting or logging call) is skipped; any other deferred call is
+			// not modelled
+			if !quietDefer(i) {
+				return nil, nil, false, undecided("deferred call %s in %s", i.Call.Value, fr.fn.Name())
+			}
+		case *ssa.RunDefers:
 		case *ssa.If:
 			c, e := in.get(fr, i.Cond)
 			if e != nil {
@@ -923,4 +931,47 @@ func isLoopHeaderPhi(b *ssa.BasicBlock, _ *ssa.Phi) bool {
 		}
 	}
 	return false
+}
+
+// quietDefer: the deferred function has no instruction besides returns and calls into fmt/log.
+func quietDefer(d *ssa.Defer) bool {
+	var fn *ssa.Function
+	switch v := d.Call.Value.(type) {
+	case *ssa.Function:
+		fn = v
+	case *ssa.MakeClosure:
+		fn, _ = v.Fn.(*ssa.Function)
+	}
+	if fn == nil {
+		return false
+	}
+	if fn.Pkg != nil {
+		switch fn.Pkg.Pkg.Path() {
+		case "fmt", "log":
+			return true
+		}
+	}
+	if fn.Blocks == nil {
+		return false
+	}
+	for _, b := range fn.Blocks {
+		for _, ins := range b.Instrs {
+			switch t := ins.(type) {
+			case *ssa.Return, *ssa.Jump, *ssa.RunDefers:
+			case *ssa.Call:
+				c := t.Call.StaticCallee()
+				if c == nil || c.Pkg == nil {
+					return false
+				}
+				switch c.Pkg.Pkg.Path() {
+				case "fmt", "log":
+				default:
+					return false
+				}
+			default:
+				return false
+			}
+		}
+	}
+	return true
 }
